@@ -202,6 +202,9 @@ func jsonMirror(v cty.Value, c *TS) *jnode {
 func jsonMirrorEq(want, got *jnode) string {
 	switch want.kind {
 	case 'W':
+		if want.s == "dynamic" && len(want.vals) == 1 && want.vals[0].kind == 'z' && got.kind == 'z' {
+			return "" // an untyped null under the placeholder is written as a bare null
+		}
 		if got.kind != 'o' || len(got.keys) != 2 {
 			return "a position under the dynamic placeholder is not a {value,type} wrapper"
 		}
@@ -324,6 +327,7 @@ func renderJnode(n *jnode) string {
 }
 
 func c15RoundTrip(u *U, v cty.Value, ct *TS) {
+	defer tolerateOptFor(v)()
 	u.Eval(1)
 	cty_ := ct.Build()
 	desc := func() string { return fmt.Sprintf("value %s against constraint %s", goStr(v), ct.Canon()) }
@@ -625,6 +629,16 @@ func runC15(c *Ctx) {
 			}
 		})
 	}
+	// (a'') untyped nulls below tuples and objects, hand-built types with optional attributes
+	for _, hv := range untypedNullValues(false) {
+		hv := hv
+		c.Unit(func(u *U) {
+			for _, ct := range dynVariants(hv.t, 16) {
+				u.DistinctN(1)
+				c15RoundTrip(u, hv.v, ct)
+			}
+		})
+	}
 	// (c) rejections
 	c.Unit(func(u *U) {
 		bad := []cty.Value{
@@ -846,4 +860,33 @@ func checkRetainedValue(u *U, family string, v cty.Value, desc string) {
 		}
 	}
 	retainedValues[family] = &retainedValue{v: v, str: goStr(v), desc: desc}
+}
+
+// untypedNullValues: wholly known values that hold an untyped null (a null of the dynamic
+// pseudo-type: what decoding a JSON null without type information gives) below a tuple or an
+// object, so that the value's own type has a placeholder inside; and, for C16R-like routes, null /
+// unknown / empty values whose hand-built type has optional attributes.  Each goes against its own
+// type and against every constraint with a placeholder at an ancestor of the null.
+func untypedNullValues(withUnknown bool) []hazardValue {
+	dn := cty.NullVal(cty.DynamicPseudoType)
+	vs := []cty.Value{
+		dn,
+		cty.TupleVal([]cty.Value{dn, cty.True}),
+		cty.ObjectVal(map[string]cty.Value{"a": dn, "b": cty.StringVal("x")}),
+		cty.TupleVal([]cty.Value{cty.TupleVal([]cty.Value{dn}), cty.StringVal("s")}),
+		cty.ObjectVal(map[string]cty.Value{"a": cty.TupleVal([]cty.Value{dn, cty.NumberIntVal(1)})}),
+		cty.TupleVal([]cty.Value{cty.ObjectVal(map[string]cty.Value{"n": dn}), cty.ListVal([]cty.Value{cty.StringVal("l")})}),
+		cty.TupleVal([]cty.Value{dn, dn}),
+	}
+	optTy := cty.ObjectWithOptionalAttrs(map[string]cty.Type{"a": cty.String, "b": cty.Number}, []string{"b"})
+	vs = append(vs, cty.NullVal(optTy), cty.ListValEmpty(optTy), cty.MapValEmpty(optTy),
+		cty.TupleVal([]cty.Value{cty.NullVal(optTy), cty.StringVal("x")}), cty.ObjectVal(map[string]cty.Value{"o": cty.ListValEmpty(optTy)}), cty.NullVal(cty.List(optTy)))
+	if withUnknown {
+		vs = append(vs, cty.UnknownVal(optTy), cty.TupleVal([]cty.Value{cty.UnknownVal(cty.List(optTy)), cty.True}))
+	}
+	var out []hazardValue
+	for _, v := range vs {
+		out = append(out, hazardValue{v, tsOf(v.Type())})
+	}
+	return out
 }
